@@ -186,6 +186,20 @@ func hostileCases() []*hcase {
 	a2 := a1 + 2 + len(rfix)
 	add("mutual", cat(h, nm, qfix, ptr(a2), rfix, ptr(a1), rfix))
 	add("backward-to-self-pointer", cat(hdr(0, 2, 0, 0), ptr(12), rfix, ptr(12), rfix))
+	// cycles made of pointers only, sitting in the RDATA of an earlier record (every hop points
+	// before the name field that started the walk, so only a bound that shrinks with every hop —
+	// or a hop count — ends it)
+	for _, hops := range []int{2, 3, 8} {
+		rd := make([]byte, 0, 2*hops)
+		x := 12 + len(nm) + 10 // offset of the first record's RDATA
+		for k := 0; k < hops; k++ {
+			rd = append(rd, ptr(x+2*((k+1)%hops))...)
+		}
+		fixed := []byte{0, 0x20, 0, 1, 0, 0, 0, 60, 0, byte(len(rd))}
+		add("ptr-cycle-in-earlier-rdata", cat(hdr(0, 2, 0, 0), nm, fixed, rd, ptr(x), rfix))
+		add("ptr-cycle-in-earlier-rdata", cat(hdr(0, 2, 0, 0), nm, fixed, rd, nm[:33], ptr(x+2), rfix))
+		add("ptr-cycle-in-earlier-rdata", cat(hdr(1, 1, 0, 1), nm, qfix, nm, fixed, rd, ptr(x+len(nm)+4), rfix))
+	}
 	// question names
 	add("q-ptr-self", cat(hdr(1, 0, 0, 0), ptr(12), qfix))
 	add("q-ptr-forward", cat(hdr(2, 0, 0, 0), ptr(18), qfix, nm, qfix))
